@@ -141,12 +141,6 @@ def gap(k, style):
     return [lines(k, style)] if k > 0 else []
 
 
-def merge_runs(items):
-    """Adjacent runs of plain lines stay separate items: the model handles runs of any length and
-    item boundaries are part of what is exercised."""
-    return items
-
-
 # --------------------------------------------------------------------------
 # rendering
 
